@@ -68,6 +68,8 @@ pub struct JudgeCfg {
     pub clear_depth: usize,
     /// extra observations folded into the digest stream (C17)
     pub rich_digest: bool,
+    /// go on past successors whose only shaping failures concern links (history-based properties)
+    pub lenient_links: bool,
 }
 
 impl Default for JudgeCfg {
@@ -79,8 +81,14 @@ impl Default for JudgeCfg {
             retire_min: 10_000,
             clear_depth: 3,
             rich_digest: false,
+            lenient_links: false,
         }
     }
+}
+
+/// Failures that only say "the links are not what the model says" (not cycles).
+pub fn is_linkish(f: &Failure) -> bool {
+    f.judge == "links" || (f.judge == "alpha" && f.sig.ends_with("|link"))
 }
 
 pub struct StepResult {
